@@ -426,6 +426,46 @@ def run_ref(case) -> CaseResult:
                     labels.add('peer-initiated')
                     if getattr(link.conn, '_kexinit_sent', False):
                         labels.add('simultaneous')
+            elif op[0] == 'held-burst':
+                # a re-exchange in which the peer takes its time with its
+                # NEWKEYS: the application writes while the exchange runs
+                # (held back), and again after asyncssh's own NEWKEYS but
+                # before the peer's - still one ordered stream
+                # (only where asyncssh has no byte limit of its own: with
+                # one it may start the NEXT exchange inside the window,
+                # which the reference peer's script does not follow)
+                if not case['rekey'] and ref.kex_state == 'idle' and \
+                        not ref.kexinit_sent and \
+                        not getattr(link.conn, '_kexinit_sent', False):
+                    ref.hold_newkeys = True
+                    ref.rekey()
+                    link.flush()
+                    h.deliver(link.ref_side, None)
+                    h.settle()
+
+                    for n in op[1]:
+                        data = payload(k, n)
+                        k += 1
+                        sent.append(data)
+                        h.call(chan.write, data)
+
+                    link.pump()
+                    check()
+
+                    if getattr(ref, 'newkeys_held', False):
+                        labels.add('peer-newkeys-late')
+
+                        for n in op[2]:
+                            data = payload(k, n)
+                            k += 1
+                            sent.append(data)
+                            h.call(chan.write, data)
+
+                        link.pump()
+                        check()
+
+                    ref.hold_newkeys = False
+                    ref.release_newkeys()
             elif op[0] == 'pump':
                 link.pump()
 
@@ -502,6 +542,9 @@ def ref_strategy(tier: str):
                   st.booleans()).map(list),
         st.tuples(st.just('rdata'), size).map(list),
         st.tuples(st.just('rekey'), st.booleans()).map(list),
+        st.tuples(st.just('held-burst'),
+                  st.lists(size, min_size=1, max_size=3),
+                  st.lists(size, min_size=1, max_size=3)).map(list),
         st.just(['pump']))
     return st.fixed_dictionaries({
         'role': pick(['server', 'client']),
@@ -523,6 +566,7 @@ FAMILIES = [
            budget={'quick': 1200, 'thorough': 15000},
            required={'all': ['role:server', 'role:client', 'rekeyed',
                              'rekeyed-twice', 'peer-initiated', 'burst',
+                             'peer-newkeys-late',
                              'algorithm-changed', 'tiny-threshold',
                              'comp:zlib', 'comp:zlib@openssh.com']},
            case_timeout=180, timeout_is_violation=True),
